@@ -1558,7 +1558,18 @@ void OPNMIDIplay::killSustainingNotes(int32_t midCh, int32_t this_adlchn, uint32
                     hooks.onNote(hooks.onNote_userData, static_cast<int>(c), jd.loc.note, midiins, 0, 0.0);
                 jd.sustained &= ~sustain_type;
                 if(jd.sustained == OpnChannel::LocationData::Sustain_None)
-                    m_chipChannels[c].users.erase(j);//Remove only when note is clean from any holders
+                {
+                    // A key that is still pressed keeps its channel when a pedal is released
+                    // (sostenuto marks notes while their keys are down)
+                    bool keyIsDown = false;
+                    if(this_adlchn < 0)
+                    {
+                        MIDIchannel::notes_iterator k = m_midiChannels[jd.loc.MidCh].find_activenote(jd.loc.note);
+                        keyIsDown = !k.is_end() && (k->value.phys_find(static_cast<uint16_t>(c)) != NULL);
+                    }
+                    if(!keyIsDown)
+                        m_chipChannels[c].users.erase(j);//Remove only when note is clean from any holders
+                }
             }
         }
 
